@@ -100,11 +100,15 @@ CLAIMS = {
              "area starts from a valid state is checked for the dumped shapes only (polygon, circle, trimer), not proved for all."),
     "C02": dict(
         engine="geom", design_ref="DESIGN.md section 4 C02",
-        technique="Coq proofs over the reals of the formula identities (partial: lens integral and score <= 1 not proved) + model/impl comparison of areas and scores + exact union-of-discs and shoelace oracles",
+        technique="Coq proofs over the reals of the formula identities; the lens term as an integral (Coquelicot: derivative of the segment formula, fundamental theorem of calculus, common chord); score <= 1 not proved (partial) + model/impl comparison of areas and scores + exact union-of-discs and shoelace oracles",
         text="Theorems (reals): a defined score equals copies x shape area / cell area and the cell area is |A x B|; the polygon "
              "area the code computes equals the shoelace area of the radial polygon (sine subtraction law); the molecule area is "
-             "the sum of disc areas minus the pairwise lens terms (zero for discs that do not reach each other).  Not proved: that "
-             "the lens term is the area of a two-disc intersection, and score <= 1; both are monitored on every generated shape "
+             "the sum of disc areas minus the pairwise lens terms (zero for discs that do not reach each other).  The lens term is the "
+             "area of the two-disc intersection in the sense of integrals: overlap_area(r,d) = r^2 acos(d/r) - d sqrt(r^2-d^2) has "
+             "derivative minus the chord length 2 sqrt(r^2-x^2), vanishes at the rim and is pi r^2 for the whole disc, so it is the "
+             "integral of the chord length beyond the chord (C02_segment_integral); the two chords of circle_overlap are the common "
+             "chord of the two circles, at distances d1 + d2 = D (C02_circle_overlap_is_two_segments).  Not proved: score <= 1.  "
+             "Areas and scores are monitored on every generated shape "
              "(exact arc-decomposition area of the union of discs; shoelace on emitted vertices; score in (0,1]).  Known finding D7: "
              "three discs with a common region.",
         note=GEOM_NOTE + "  acos, sqrt, sin and pi are libm values shared by model and implementation."),
